@@ -23,7 +23,11 @@ RULE = ("cases = (format, api in {load(stride,frame), load_frame, iterload(chunk
         "first+last, contiguous blocks, evenly strided, irregular incl. sets that look evenly spaced from their end points, repeated "
         "gaps, all atoms - derived per atom count}, 1..3 files) on files "
         "whose configuration rotates from case to case through atom counts {1,3,4,10,13,20} x written with/without unit cell "
-        "(lammpstrj, dtr always with cell); "
+        "(lammpstrj, dtr always with cell) x file style (written by mdtraj | hand-written using the format's freedom: lammpstrj atom lines "
+        "shuffled per frame / other column order and extra columns, xyz comment lines and extra column, gro/pdb arbitrary serials and "
+        "residue numbers, velocities, MODEL/HETATM/TER, mdcrd title quirks); plus histories: sequences of partial loads sharing ONE "
+        "Topology object (iterload abandoned after a chunk, two iterloads interleaved chunk by chunk, a suspended iterload with loads in "
+        "between, a load after a failed load, a load of a file list followed by plain loads), every step compared with the same call made alone; "
         "thorough: exhaustive for T<=8, chunk 0..9, stride 1..4, skip 0..T (atom subset and file configuration rotate with the case); "
         "quick: fixed witnesses + seeded sample; a case is non-trivial when stride>1 or skip>0 or an atom subset "
         "or a frame is given; distinct by hash of the case")
@@ -75,6 +79,14 @@ def ais_for(n):
     return out
 
 
+# hand-written input files that use the legal freedom of the text formats (harness/impl/load_impl.py HAND):
+# lammpstrj with atom lines in a different order in every frame / other column order, extra columns, xu yu zu;
+# xyz with varying comment lines, blanks, an extra column; gro with arbitrary residue/atom numbers, velocities and text
+# before t=; pdb with MODEL blocks, arbitrary serials / residue numbers, HETATM, TER; mdcrd with an empty / numeric title
+STYLES = {"lammpstrj": ["mdtraj", "shuffled", "columns"], "xyz": ["mdtraj", "hand"], "gro": ["mdtraj", "hand"],
+          "pdb": ["mdtraj", "hand"], "mdcrd": ["mdtraj", "title_empty", "title_numeric"]}
+
+
 def config(fmt, i):
     n, cell = CONFIGS[i % len(CONFIGS)]
     if fmt in NEEDS_CELL or (fmt == "mdcrd" and n == 1):
@@ -87,22 +99,61 @@ def config(fmt, i):
 _rot = itertools.count()
 
 
-def mk(fmt, kind, Ts, chunk=0, stride=1, skip=0, frame=None, ai=0, n_atoms=None):
+def mk(fmt, kind, Ts, chunk=0, stride=1, skip=0, frame=None, ai=0, n_atoms=None, style=None, cell=None):
     """ai = index into ais_for(n_atoms) (or an explicit list together with n_atoms); the file configuration rotates
     with every case that is built"""
     T = Ts[0]
     i = next(_rot)
-    n, cell = config(fmt, i // 4)
+    n, cell0 = config(fmt, i // 4)
     if n_atoms is not None:
         n = n_atoms
+    if cell is None:
+        cell = cell0
+    if style is None:
+        sts = STYLES.get(fmt, ["mdtraj"])
+        style = sts[(i // 2) % len(sts)]
+    if fmt in NEEDS_CELL or (fmt == "mdcrd" and n == 1):
+        cell = True
     if isinstance(ai, int):
         choices = ais_for(n)
         sel = choices[ai % len(choices)]
     else:
         sel = ai
     return {"fmt": fmt, "kind": kind, "Ts": list(Ts), "chunk": chunk, "stride": stride, "skip": skip, "frame": frame,
-            "ai": sel, "limit": T + 3, "n_atoms": n, "cell": cell,
+            "ai": sel, "limit": T + 3, "n_atoms": n, "cell": cell, "style": style,
             "isolate": bool(fmt == "trr" and stride > 1 and sel is not None)}
+
+
+HFMTS = ["xyz", "dcd", "nc", "xtc", "mdcrd", "lammpstrj", "trr", "dtr"]     # formats that take top= (an object can be shared)
+
+
+def histories(fmt, n=4):
+    """sequences of partial loads sharing ONE Topology object: [template name, steps, events]"""
+    A, B, C = ([0, 2], [1, 3], [1]) if n == 4 else ([0, 2, 3, 6], [1, 4, 5, 10], [2, 4, 7, 8, 9])
+    T = 6
+
+    def st(kind, **kw):
+        c = mk(fmt, kind, kw.pop("Ts", [T]), n_atoms=n, style="mdtraj", cell=True, **kw)
+        c["isolate"] = False
+        return c
+    it = lambda ai, chunk=2, stride=1: st("iterload", chunk=chunk, stride=stride, skip=0, ai=ai)   # noqa: E731
+    hs = [
+        ("abandoned_iterload", [it(A), st("load", ai=B), st("load_frame", frame=2, ai=C), it(B, 3)],
+         [["start", 0], ["next", 0], ["drop", 0], ["run", 1], ["run", 2], ["run", 3]]),
+        ("interleaved_iterloads", [it(A), it(B), it(C, 4)],
+         [["start", 0], ["start", 1]] + [["next", 0], ["next", 1]] * 2 + [["run", 2]] + [["next", 0], ["next", 1]] * 3),
+        ("suspended_iterload", [it(A, 2, 2 if fmt != "trr" else 1), st("load", ai=B), st("load_frame", frame=5, ai=B)],
+         [["start", 0], ["next", 0], ["run", 1], ["next", 0], ["run", 2], ["next", 0], ["next", 0]]),
+        ("failed_load", [dict(st("load", frame=T + 4, ai=A), nocoq=True), st("load", ai=B), it(C, 4)],
+         [["run", 0], ["run", 1], ["run", 2]]),
+        ("list_then_load", [st("load_list", Ts=[3, 2], ai=A), st("load", ai=B), it(C, 4), st("load", ai=None)],
+         [["run", 0], ["run", 1], ["run", 2], ["run", 3]]),
+    ]
+    out = []
+    for name, steps, events in hs:
+        out.append({"fmt": fmt, "kind": "history", "template": name, "Ts": [T], "n_atoms": n, "cell": True, "style": "mdtraj",
+                    "steps": steps, "events": events, "isolate": fmt == "trr"})
+    return out
 
 
 def witnesses():
@@ -121,6 +172,13 @@ def witnesses():
                 mk(fmt, "iterload", [6], 2, 1, 0, ai=[0, 3, 6, 9], n_atoms=10),
                 mk(fmt, "load", [5], stride=2, ai=[2, 3, 4, 5, 6], n_atoms=10),
                 mk(fmt, "load_list", [2, 3], stride=1, ai=list(range(13)), n_atoms=13)]
+        for sty in STYLES.get(fmt, [])[1:]:
+            out += [mk(fmt, "load", [6], stride=1, ai=[1, 4, 5, 10], n_atoms=13, style=sty),
+                    mk(fmt, "iterload", [7], 3, 1, 0, ai=[0, 2, 12], n_atoms=13, style=sty),
+                    mk(fmt, "load", [5], stride=2, ai=None, n_atoms=10, style=sty, cell=False),
+                    mk(fmt, "iterload", [6], 2, 2, 1, ai=[3], n_atoms=4, style=sty)]
+    for k, fmt in enumerate(HFMTS):
+        out += histories(fmt, 4 if k % 2 == 0 else 13)
     return out
 
 
@@ -176,10 +234,14 @@ def build_cases(ctx):
         cases += sampled(ctx.rng, 45)
     else:
         cases += exhaustive() + sampled(ctx.rng, 60)
+        for fmt in HFMTS:
+            cases += histories(fmt, 4) + histories(fmt, 13)
     return cases
 
 
 def nontrivial(c):
+    if c["kind"] == "history":
+        return True
     return c["stride"] > 1 or c["skip"] > 0 or c["ai"] is not None or c["frame"] is not None or len(c["Ts"]) > 1
 
 
@@ -271,7 +333,33 @@ def spec_flat(c):
 
 
 # ---------------------------------------------------------------------------------------------- run
+def _norm_traj(t):
+    return (t["frames"], t["top_atoms"], bool(t["time_bad"]), bool(t["cell_bad"]), t["top_matches_xyz"])
+
+
+def same_as_standalone(h, s):
+    """observation of a step inside a history vs the same step run alone (fresh state, topology given as a path)"""
+    if h is None:
+        return True                    # step never ran (its events were not reached)
+    if "traj" in h or "traj" in s:
+        return "traj" in h and "traj" in s and _norm_traj(h["traj"]) == _norm_traj(s["traj"])
+    hc = [_norm_traj(t) for t in h.get("chunks", [])]
+    sc = [_norm_traj(t) for t in s.get("chunks", [])]
+    if "exhausted" in h and not h["exhausted"] and "err" not in h:
+        return hc == sc[:len(hc)]      # generator still suspended / abandoned: a prefix of the chunks
+    return hc == sc and h.get("err") == s.get("err")
+
+
 def run_cases(ctx, cases, replaying=False):
+    # every step of a history also runs alone, as an ordinary case (and is compared with the model in coqc)
+    cases = list(cases)
+    hist_steps = {}
+    for hi, c in enumerate(list(cases)):
+        if c["kind"] == "history":
+            hist_steps[hi] = []
+            for stp in c["steps"]:
+                cases.append(dict(stp, from_history=True))
+                hist_steps[hi].append(len(cases) - 1)
     workers = 4
     res = ctx.run_impl("load_impl.py", {"workers": workers, "cases": cases, "probe_trr": True}, timeout=3000)
     outs = res["results"]
@@ -287,7 +375,7 @@ def run_cases(ctx, cases, replaying=False):
     jobs, coqcases = [], []
     expressible = []
     for ci, (c, r) in enumerate(zip(cases, outs)):
-        if c.get("probe"):
+        if c.get("probe") or c["kind"] == "history" or c.get("nocoq"):
             expressible.append(False)
             continue
         if c.get("isolate") and r.get("err") == "Crash":
@@ -370,10 +458,11 @@ def run_cases(ctx, cases, replaying=False):
     for ci, (c, r) in enumerate(zip(cases, outs)):
         if c.get("probe"):
             continue
-        ctx.count({k: c.get(k) for k in ("fmt", "kind", "Ts", "chunk", "stride", "skip", "frame", "ai", "n_atoms", "cell")},
+        ctx.count({k: c.get(k) for k in ("fmt", "kind", "Ts", "chunk", "stride", "skip", "frame", "ai", "n_atoms", "cell", "style",
+                                         "template", "events")},
                   nontrivial=nontrivial(c), bucket="%s/%s" % (c["fmt"], c["kind"]))
         cfgs = ctx.notes.setdefault("coverage_extra", {}).setdefault("file_configurations", {})
-        ck = "%s atoms=%s cell=%s" % (c["fmt"], c.get("n_atoms", N_ATOMS), c.get("cell", True))
+        ck = "%s atoms=%s cell=%s style=%s" % (c["fmt"], c.get("n_atoms", N_ATOMS), c.get("cell", True), c.get("style", "mdtraj"))
         cfgs[ck] = cfgs.get(ck, 0) + 1
         if not expressible[ci]:
             continue
@@ -430,6 +519,36 @@ def run_cases(ctx, cases, replaying=False):
                          observed=t["frames"], expected="frames of the file",
                          tags={"fmt": fmt, "api": c["kind"], "kind": "unidentified_frame",
                                "explained_by": VNAME[vg[0]] if vg else None})
+    check_histories(ctx, cases, outs, hist_steps)
+
+
+def check_histories(ctx, cases, outs, hist_steps):
+    """history independence: a step inside a history (one shared Topology object) observes what it observes alone"""
+    for hi, idxs in hist_steps.items():
+        c, r = cases[hi], outs[hi]
+        if r.get("err") == "Crash":
+            if c["fmt"] == "trr":
+                continue
+            ctx.fail("%s: history of partial loads crashed" % c["fmt"], c, observed=r, expected="no crash",
+                     tags={"fmt": c["fmt"], "kind": "crash", "template": c.get("template")})
+            continue
+        steps = r.get("steps") or []
+        bad = []
+        for j, si in enumerate(idxs):
+            h = steps[j] if j < len(steps) else None
+            if not same_as_standalone(h, outs[si]):
+                bad.append({"step": j, "in_history": h, "alone": outs[si]})
+        if bad:
+            ctx.fail("%s: a partial load returns something else after/while other partial loads used the same Topology object [%s]"
+                     % (c["fmt"], c.get("template")), c, observed=bad[:2],
+                     expected="every step equals the same call made alone (topology given as a path)",
+                     tags={"fmt": c["fmt"], "kind": "history_dependent", "template": c.get("template"),
+                           "stale_subset_override": bool(r.get("stale_subset_override"))})
+        elif r.get("stale_subset_override"):
+            ctx.fail("%s: the caller's Topology object is left with an overridden subset() [%s]" % (c["fmt"], c.get("template")),
+                     c, observed=r.get("stale_subset_override"), expected="Topology object unchanged",
+                     tags={"fmt": c["fmt"], "kind": "history_dependent", "template": c.get("template"),
+                           "stale_subset_override": True})
 
 
 READER_OF_FMT = {"h5": "hdf5", "nc": "netcdf", "mdcrd": "mdcrd", "xyz": "xyz", "xyz.gz": "xyz", "lammpstrj": "lammpstrj",
